@@ -31,6 +31,31 @@ def parseOp (j : Json) : R (Op × Nat) := do
   | "set_message" => return (.setMessage (← fChars j "arg"), t)
   | _ => .error s!"unknown op {name}"
 
+/-- an operation or a setter called in the middle of the run: `set_min` / `set_max_interval` (ticks),
+`set_redraw`, `set_bar_width` (naturals), `set_bar_char` / `set_empty_char` / `set_progress_char` /
+`set_format` (texts) -/
+def parseCall (j : Json) : R (Call × Nat) := do
+  let name ← fStr j "op"
+  let t ← fNat j "t"
+  match name with
+  | "set_min" => return (.set (.minInterval (← fNat j "arg")), t)
+  | "set_max_interval" => return (.set (.maxInterval (← fNat j "arg")), t)
+  | "set_redraw" => return (.set (.redrawFreq (← fNat j "arg")), t)
+  | "set_bar_width" => return (.set (.barWidth (← fNat j "arg")), t)
+  | "set_bar_char" => return (.set (.barChar (← fChars j "arg")), t)
+  | "set_empty_char" => return (.set (.emptyChar (← fChars j "arg")), t)
+  | "set_progress_char" => return (.set (.progressChar (← fChars j "arg")), t)
+  | "set_format" => return (.set (.format (← fChars j "arg")), t)
+  | _ => do
+    let (o, t) ← parseOp j
+    return (.op o, t)
+
+def jCEvent (e : CEvent) : Json :=
+  Json.mkObj [("w", jStrs e.res.writes),
+              ("progress", jNat e.res.st.step),
+              ("max", jNat e.res.st.max),
+              ("err", match e.res.err with | none => .null | some x => .str x.name)]
+
 def jEvent (e : Event) : Json :=
   Json.mkObj [("w", jStrs e.res.writes),
               ("progress", jNat e.res.st.step),
@@ -39,7 +64,7 @@ def jEvent (e : Event) : Json :=
 
 /-- `c16.run {kind, quiet, verbosity, columns, max, min_ticks, max_ticks|null, redraw|null,
 bar_width|null, bar_char|null, empty_char|null, progress_char|null, format|null, message|null,
-t0, ops:[{op, arg, t}]}` -> per op the stream writes, the getters and the exception class; `hyp`: the
+t0, ops:[{op, arg, t}]}` (operations and mid-run setters, see `parseCall`) -> per call the stream writes, the getters and the exception class; `hyp`: the
 deciders of the hypotheses of the theorems on this configuration and history.
 `c16.roundq {a, b}` -> the correctly rounded quotient (self-test of the float model). -/
 def handle (m : String) (j : Json) : Option (R Json) :=
@@ -61,7 +86,7 @@ def handle (m : String) (j : Json) : Option (R Json) :=
       let format ← fOptChars j "format"
       let message ← fOptChars j "message"
       let t0 ← fNat j "t0"
-      let ops ← (← fArr j "ops").toList.mapM parseOp
+      let calls ← (← fArr j "ops").toList.mapM parseCall
       let c := mkConfig kind quiet verbosity columns minTicks maxTicks redraw barWidth barChar
         emptyChar progressChar format
       let s0 := init mx t0
@@ -70,14 +95,15 @@ def handle (m : String) (j : Json) : Option (R Json) :=
         | some msg => { s0 with messages := dictSet messageKey msg s0.messages }
       -- the hypotheses of the theorems (Props.C16.hyps_decide); the message set before the first call
       -- counts as a `set_message` call (Props.C16.run_with_message)
-      let ops' := match message with
-        | none => ops
-        | some msg => (Op.setMessage msg, t0) :: ops
-      let evs := run c s0 ops
-      return Json.mkObj [("events", jList jEvent evs),
+      let calls' := match message with
+        | none => calls
+        | some msg => (Call.op (Op.setMessage msg), t0) :: calls
+      -- `runC`: the history may contain setters; without any it is `run` (Props.C16.run_is_runC)
+      let evs := runC c s0 calls
+      return Json.mkObj [("events", jList jCEvent evs),
         ("hyp", Json.mkObj [("single", .bool (singleCharsB c)), ("bar_width_ok", .bool (barWidthOkB c)),
-                            ("clean_cfg", .bool (cleanCfgB c)), ("clean_ops", .bool (cleanOpsB ops')),
-                            ("no_err", .bool (noErrB evs))])]
+                            ("clean_cfg", .bool (cleanCfgB c)), ("clean_ops", .bool (cleanCallsB calls')),
+                            ("no_err", .bool (noErrCB evs))])]
   | "c16.roundq" => some do
       let a ← fNat j "a"
       let b ← fNat j "b"
